@@ -134,7 +134,7 @@ Qed.
 
 Lemma draws_run_fresh ds : forall g es ps g', draws_run g ds = (es, ps, g') -> Fresh g g' ps.
 Proof.
-  induction ds as [|[py k] r IH]; simpl; intros g es ps g' H.
+  induction ds as [|[[py k] dec] r IH]; simpl; intros g es ps g' H.
   - inversion H; subst. apply Fresh_refl.
   - destruct (draws_run (advance py k g) r) as [[es1 ps1] g1] eqn:E. inversion H; subst.
     apply IH in E. eapply Fresh_trans; [apply Fresh_block|exact E].
@@ -301,11 +301,21 @@ Definition InvT (st : state) (cur : option Z) (T : list tag) : Prop :=
 
 Lemma popped_app a b : popped (a ++ b) = popped a ++ popped b.
 Proof. induction a as [|[] a IH]; simpl; auto. now rewrite IH. Qed.
-Lemma popped_draws ds : forall g, popped (fst (fst (draws_run g ds))) = [].
+
+(* the events of the fresh draws of a sample are draw / use events only *)
+Definition du (e : ev) : bool := match e with EDraw _ _ _ _ | EUse _ => true | _ => false end.
+Lemma du_map_use l : forallb du (map EUse l) = true.
+Proof. induction l; simpl; auto. Qed.
+Lemma draws_run_du ds : forall g, forallb du (fst (fst (draws_run g ds))) = true.
 Proof.
-  induction ds as [|[py k] r IH]; intros g; simpl; auto.
-  specialize (IH (advance py k g)). destruct (draws_run (advance py k g) r) as [[es ps] g']. simpl in *. auto.
+  induction ds as [|[[py k] dec] r IH]; intros g; simpl; auto.
+  specialize (IH (advance py k g)). destruct (draws_run (advance py k g) r) as [[es ps] g']. simpl in *.
+  rewrite forallb_app, IH. destruct dec; simpl; [rewrite du_map_use|]; reflexivity.
 Qed.
+Lemma du_popped es : forallb du es = true -> popped es = [].
+Proof. induction es as [|[] es IH]; simpl; intros H; try discriminate; auto. Qed.
+Lemma popped_draws ds g : popped (fst (fst (draws_run g ds))) = [].
+Proof. apply du_popped, draws_run_du. Qed.
 Lemma popped_map_draw (f : Z -> ev) l : (forall j, exists a b c d, f j = EDraw a b c d) -> popped (map f l) = [].
 Proof. intros H. induction l as [|x l IH]; simpl; auto. destruct (H x) as (a & b & c & d & ->). auto. Qed.
 
@@ -378,14 +388,68 @@ Proof.
     rewrite events_cons, popped_app, app_assoc. eapply IH; eauto. apply step_invT; auto.
 Qed.
 
+(* ------------------------------------------------------------------ the variates compared by the coupling decisions *)
+Lemma uses_app a b : uses (a ++ b) = uses a ++ uses b.
+Proof. induction a as [|[] a IH]; simpl; auto. now rewrite IH. Qed.
+Lemma uses_map_use l : uses (map EUse l) = l.
+Proof. induction l; simpl; auto. now rewrite IHl. Qed.
+Lemma uses_map_draw (f : Z -> ev) l : (forall j, exists a b c d, f j = EDraw a b c d) -> uses (map f l) = [].
+Proof. intros H. induction l as [|x l IH]; simpl; auto. destruct (H x) as (a & b & c & d & ->). auto. Qed.
+Lemma uses_pop q : uses (fst (fst (pop q))) = [].
+Proof. destruct q; reflexivity. Qed.
+
+Lemma Fresh_adv_nil py k g : Fresh g (advance py k g) [].
+Proof.
+  unfold Fresh. split; [apply sid_advance|]. split; [apply np_advance|]. split; [apply py_advance|].
+  split; [constructor|]. intros a b c [].
+Qed.
+
+Lemma draws_run_uses ds : forall g es ps g', draws_run g ds = (es, ps, g') -> Fresh g g' (uses es).
+Proof.
+  induction ds as [|[[py k] dec] r IH]; simpl; intros g es ps g' H.
+  - inversion H; subst. apply Fresh_refl.
+  - destruct (draws_run (advance py k g) r) as [[es1 ps1] g1] eqn:E. inversion H; subst.
+    apply IH in E. simpl. rewrite uses_app.
+    eapply Fresh_trans; [|exact E].
+    destruct dec; simpl; [rewrite uses_map_use; apply Fresh_block|apply Fresh_adv_nil].
+Qed.
+
+Definition InvU (st : state) (U : list pos) : Prop := NoDup U /\ Bnd (s_gen st) U.
+
+Lemma step_invU st cur U o :
+  op_ok cur o = true -> InvU st U -> InvU (fst (step st o)) (U ++ uses (fst (snd (step st o)))).
+Proof.
+  intros Hok [Hnd Hb]. destruct o as [s|slot n nb d|src dst|slot fixed lvl ds]; simpl in Hok; try discriminate.
+  - simpl. rewrite uses_app. simpl. rewrite uses_map_draw by (intros; eauto). simpl.
+    unfold InvU. simpl. apply (fresh_ext (s_gen st)); [exact Hb|exact Hnd|exact (Fresh_adv_nil false _ (s_gen st))].
+  - simpl. rewrite app_nil_r. split; auto.
+  - destruct fixed; simpl.
+    + pose proof (uses_pop (q_pois (s_slot st slot))) as H1. pose proof (uses_pop (q_brown (s_slot st slot))) as H3.
+      destruct (pop (q_pois (s_slot st slot))) as [[e1 r1] qp].
+      destruct (draws_run (s_gen st) ds) as [[e2 r2] g'] eqn:Ed.
+      destruct (pop (q_brown (s_slot st slot))) as [[e3 r3] qb]. simpl in *.
+      rewrite !uses_app, H1, H3. simpl. rewrite app_nil_r.
+      unfold InvU. simpl. apply (fresh_ext (s_gen st)); [exact Hb|exact Hnd|eapply draws_run_uses; eauto].
+    + destruct (draws_run (s_gen st) ds) as [[e2 r2] g'] eqn:Ed. simpl.
+      rewrite uses_app. simpl. rewrite app_nil_r.
+      unfold InvU. simpl. apply (fresh_ext (s_gen st)); [exact Hb|exact Hnd|eapply draws_run_uses; eauto].
+Qed.
+
+Lemma run_invU ops : forall st cur U, lin ops cur = true -> InvU st U -> NoDup (U ++ uses (events ops st)).
+Proof.
+  induction ops as [|o r IH]; intros st cur U Hl Hi.
+  - unfold events. simpl. rewrite app_nil_r. apply Hi.
+  - simpl in Hl. apply andb_prop in Hl. destruct Hl as [Hok Hl].
+    rewrite events_cons, uses_app, app_assoc. eapply IH; eauto. eapply step_invU; eauto.
+Qed.
+
 (* no seed instruction => no seed event *)
 Lemma seeds_app a b : seeds (a ++ b) = seeds a ++ seeds b.
 Proof. induction a as [|[] a IH]; simpl; auto. now rewrite IH. Qed.
-Lemma seeds_draws ds : forall g, seeds (fst (fst (draws_run g ds))) = [].
-Proof.
-  induction ds as [|[py k] r IH]; intros g; simpl; auto.
-  specialize (IH (advance py k g)). destruct (draws_run (advance py k g) r) as [[es ps] g']. simpl in *. auto.
-Qed.
+Lemma du_seeds es : forallb du es = true -> seeds es = [].
+Proof. induction es as [|[] es IH]; simpl; intros H; try discriminate; auto. Qed.
+Lemma seeds_draws ds g : seeds (fst (fst (draws_run g ds))) = [].
+Proof. apply du_seeds, draws_run_du. Qed.
 Lemma seeds_map_draw (f : Z -> ev) l : (forall j, exists a b c d, f j = EDraw a b c d) -> seeds (map f l) = [].
 Proof. intros H. induction l as [|x l IH]; simpl; auto. destruct (H x) as (a & b & c & d & ->). auto. Qed.
 Lemma seeds_pop q : seeds (fst (fst (pop q))) = [].
@@ -497,7 +561,8 @@ Definition disciplined (ops : list op) (st : state) (s : Z) : Prop :=
   NoDup (consumed ops st)
   /\ NoDup (popped (events ops st))
   /\ (exists rest, events ops st = ESeed s :: rest /\ seeds rest = [])
-  /\ reseed_free (events ops st).
+  /\ reseed_free (events ops st)
+  /\ NoDup (uses (events ops st)).
 
 Lemma seeds_in es s : In (ESeed s) es -> In s (seeds es).
 Proof. induction es as [|[] es IH]; simpl; intros H; try tauto; destruct H as [H|H]; try discriminate; auto. inversion H; auto. Qed.
@@ -515,6 +580,7 @@ Proof.
     + simpl in Heq. inversion Heq; subst.
       assert (In (ESeed s') (events body (after_seed s))) by (rewrite H1; apply in_or_app; right; left; auto).
       apply seeds_in in H. rewrite Hs in H. destruct H.
+  - apply (run_invU body (after_seed s) None []); [apply Hsc|]. split; simpl; [constructor|]. intros py sd i [].
 Qed.
 
 Theorem single_process_disjoint : forall seed t m g,
@@ -547,16 +613,14 @@ Lemma underflows_app a b : underflows (a ++ b) = (underflows a + underflows b)%n
 Proof. induction a as [|[] a IH]; simpl; auto; try (now rewrite IH). Qed.
 Lemma created_app a b : created (a ++ b) = created a ++ created b.
 Proof. induction a as [|[] a IH]; simpl; auto; try (now rewrite IH, app_assoc). Qed.
-Lemma underflows_draws ds : forall g, underflows (fst (fst (draws_run g ds))) = O.
-Proof.
-  induction ds as [|[py k] r IH]; intros g; simpl; auto.
-  specialize (IH (advance py k g)). destruct (draws_run (advance py k g) r) as [[es ps] g']. simpl in *. auto.
-Qed.
-Lemma created_draws ds : forall g, created (fst (fst (draws_run g ds))) = [].
-Proof.
-  induction ds as [|[py k] r IH]; intros g; simpl; auto.
-  specialize (IH (advance py k g)). destruct (draws_run (advance py k g) r) as [[es ps] g']. simpl in *. auto.
-Qed.
+Lemma du_underflows es : forallb du es = true -> underflows es = O.
+Proof. induction es as [|[] es IH]; simpl; intros H; try discriminate; auto. Qed.
+Lemma du_created es : forallb du es = true -> created es = [].
+Proof. induction es as [|[] es IH]; simpl; intros H; try discriminate; auto. Qed.
+Lemma underflows_draws ds g : underflows (fst (fst (draws_run g ds))) = O.
+Proof. apply du_underflows, draws_run_du. Qed.
+Lemma created_draws ds g : created (fst (fst (draws_run g ds))) = [].
+Proof. apply du_created, draws_run_du. Qed.
 Lemma underflows_map_draw (f : Z -> ev) l : (forall j, exists a b c d, f j = EDraw a b c d) -> underflows (map f l) = O.
 Proof. intros H. induction l as [|x l IH]; simpl; auto. destruct (H x) as (a & b & c & d & ->). auto. Qed.
 Lemma created_map_draw (f : Z -> ev) l : (forall j, exists a b c d, f j = EDraw a b c d) -> created (map f l) = [].
@@ -678,13 +742,13 @@ Theorem rows_exactly_once_engines : forall seed t nb d g,
 Proof.
   intros. split.
   - intros ss. destruct (single_process_disjoint seed t (mkMode true nb d) g) as [H _].
-    destruct (H ss) as (_ & Hnd & _ & _).
+    destruct (H ss) as (_ & Hnd & _).
     unfold rows_exactly_once. unfold std_ops in *. rewrite events_seed_first in *. rewrite final_seed_first.
     unfold pre, samples_ops in *. simpl in *.
     destruct (level_block_ok 0 nb d (-1) ss (len ss) (after_seed (seed_choice seed false t)) eq_refl) as [[U C] F].
     repeat split; auto; apply C.
   - intros levels n0 Hne HF. destruct (single_process_disjoint seed t (mkMode true nb d) g) as [_ [H _]].
-    destruct (H n0 levels) as (_ & Hnd & _ & _).
+    destruct (H n0 levels) as (_ & Hnd & _).
     unfold rows_exactly_once. unfold mlc_ops in *. rewrite events_seed_first in *. rewrite final_seed_first.
     destruct levels as [|ss r]; [congruence|]. inversion HF as [|? ? Hlen HF']; subst.
     unfold mlc_body, pre, samples_ops in *. simpl in *.
@@ -848,7 +912,7 @@ Theorem preseed_draws_refuted :
 Proof.
   split.
   - exists 7, 0, fixed1, [[]], (mkGen 100 0 0), (mkGen 200 5 0). vm_compute. discriminate.
-  - exists 7, 0, fixed1, [[(false, 1)]], (mkGen 7 0 0). apply dupb_sound. vm_compute. reflexivity.
+  - exists 7, 0, fixed1, [[(false, 1, false)]], (mkGen 7 0 0). apply dupb_sound. vm_compute. reflexivity.
 Qed.
 
 (* F-C08-2 (before the fix): compute_level_l re-seeds for every level: with a seed, and without one
@@ -859,22 +923,22 @@ Theorem reseed_per_level_refuted :
   /\ (exists t m n0 ss0 ss1 g, ~ NoDup (consumed (mlc_ops_orig None m n0 [(ss0, t); (ss1, t)]) (init g))).
 Proof.
   split.
-  - exists 7, jump, 1, [([[(false, 1)]], 0); ([[(false, 1)]], 0)], (mkGen (-1) 0 0). split.
+  - exists 7, jump, 1, [([[(false, 1, false)]], 0); ([[(false, 1, false)]], 0)], (mkGen (-1) 0 0). split.
     + apply dupb_sound. vm_compute. reflexivity.
     + intro H. vm_compute in H.
       specialize (H [ESeed 7; EBegin 0; EDraw false 7 0 1; EEnd] 7 [EBegin 1; EDraw false 7 0 1; EEnd] eq_refl (false, 7, 0)).
       apply H; [vm_compute; auto|reflexivity].
-  - exists 12345, jump, 1, [[(false, 2)]], [[(false, 1)]], (mkGen (-1) 0 0). apply dupb_sound. vm_compute. reflexivity.
+  - exists 12345, jump, 1, [[(false, 2, false)]], [[(false, 1, false)]], (mkGen (-1) 0 0). apply dupb_sound. vm_compute. reflexivity.
 Qed.
 
 (* F-C08-4 (before the fix): seed 0 is treated as "no seed": the run follows the clock *)
 Theorem seed_zero_refuted :
   exists t1 t2 m ss g, samples (std_ops_orig (Some 0) t1 m ss) (init g) <> samples (std_ops_orig (Some 0) t2 m ss) (init g).
-Proof. exists 1, 2, jump, [[(false, 1)]], (mkGen (-1) 0 0). vm_compute. discriminate. Qed.
+Proof. exists 1, 2, jump, [[(false, 1, false)]], (mkGen (-1) 0 0). vm_compute. discriminate. Qed.
 
 (* F-C08-3 (delivered tree): every chunk of the worker pool starts from a copy of the same deques:
    two workers, distinctly seeded, one sample each: both consume row 0 of both deques *)
-Definition pool_witness := pool_run (mkGen (-1) 0 0) fixed1 2 [11; 22] [(0%nat, [[(false, 1)]]); (1%nat, [[(false, 1)]])].
+Definition pool_witness := pool_run (mkGen (-1) 0 0) fixed1 2 [11; 22] [(0%nat, [[(false, 1, false)]]); (1%nat, [[(false, 1, false)]])].
 Theorem workers_share_rows_refuted :
   ~ NoDup (flat_map snd (snd pool_witness))
   /\ popped (nth 0 (snd (fst pool_witness)) []) = [(2, 0); (1, 0)]
